@@ -645,7 +645,7 @@ def run(chk) -> None:
 MANIFEST_ENTRY = {
     "text": "Static decision of the structural clauses of the stacking definition on the current source of find_stackings: radius 6.0, centroid = mean of the present base atoms, "
     "skip iff min(angle(n_i,n_j), angle(-n_i,n_j)) > 35 degrees, skip iff min(angle(v,n_i), angle(v,n_j)) > 45 degrees (cell-by-cell accept regions over both angles, so min/max and "
-    "unit slips are visible), no other filter, same_direction iff dot > 0, label grouping and lower-first orientation enumerated over the four cases, sorted emission.",
+    "unit slips are visible), no other filter, same_direction iff dot > 0, label grouping and lower-first orientation enumerated over the four cases, sorted emission. Since round 3 the clauses are decided first by fact-level rules (checks/c04e.py): symbolic path execution of the stacking loop, angles read as angles or as cosines, centroid and base normal by value on representative residues, memoised members of the structure argument; the pinned forms are per-aspect fallbacks.",
     "note": "Trusted: KD-tree yields each pair once; float geometry not decided; which of the two labels of a group applies is a convention the statement does not fix.",
-    "technique": "static analysis: constant folding, reaching definitions, accept-region evaluation over the cell partition, finite case enumeration of branch outcomes",
+    "technique": "static analysis: constant folding, reaching definitions, accept-region evaluation over the cell partition, finite case enumeration of branch outcomes + symbolic path execution and fragment evaluation of the ast on input-class representatives",
 }
